@@ -7,6 +7,7 @@ import MysyncModel.App.Switchover
 import MysyncModel.World.Env
 import MysyncProofs.Lemmas.GtidLemmas
 import MysyncProofs.Lemmas.SwitchoverStages
+import MysyncProofs.Lemmas.QuorumSpec
 
 namespace SwitchoverLemmas
 open NS Gtid Select Switchover
@@ -373,20 +374,14 @@ theorem quorum_numbers (cfg : Cfg) (i : In)
     (h : Gen.SwitchHelper.CheckFailoverQuorum (sh cfg) i.active (frozen i).length = none) :
     (cfg.semiSync = true → Gen.SwitchHelper.GetFailoverQuorum (sh cfg) i.active ≤ (frozen i).length) ∧
     (cfg.semiSync = false → 1 ≤ (frozen i).length) := by
-  unfold Gen.SwitchHelper.CheckFailoverQuorum at h
   constructor
   · intro hs
     have : (sh cfg).SemiSync = true := hs
-    simp only [this, if_true] at h
-    by_cases hlt : ((frozen i).length : Int) < Gen.SwitchHelper.GetFailoverQuorum (sh cfg) i.active
-    · simp [hlt] at h
-    · exact Int.not_lt.mp hlt
+    exact (QuorumSpec.check_spec_semi _ _ _ this).mp h
   · intro hs
     have : (sh cfg).SemiSync = false := hs
-    simp only [this] at h
-    by_cases hz : (frozen i).length = 0
-    · simp [hz] at h
-    · omega
+    have := (QuorumSpec.check_spec_async _ _ _ this).mp h
+    omega
 
 theorem async_escape_only_if (cfg : Cfg) (sw : Manager.Switch) (delay : Option Int)
     (h : checkAsyncSwitchAllowed cfg sw delay = true) :
